@@ -117,6 +117,21 @@ def drive_estimator(seed):
                                                    pts=np.rint(X * S).astype(int).tolist(), S=S, tol=TOL, key=key, meta=w))
                             except Exception as ex:
                                 bad.append(("C13.no-error", dict(exc=type(ex).__name__, **w), None, repr(ex)[:200]))
+        # positive lower bounds: the darkest corner of the gamut is not the dark point; a requested total between the
+        # darkest and the second-darkest corner is a proper slice of the gamut near that corner
+        try:
+            sysl = dict(sysd, lb=[1] * n_src, ub=[2] * n_src)
+            estl = dsys.make_estimator(dreye, sysl)
+            cl = sorted({tuple(int(v) for v in (np.array(A) @ np.array(x))) for x in itertools.product([1, 2], repeat=n_src)})
+            tots = sorted({sum(c) for c in cl})
+            l1 = (tots[0] + tots[1]) / 2.0
+            for engine in (None, "Sobol"):
+                w = dict(op="sample_in_gamut", d=d, engine=str(engine), n=200, l1="between the two darkest corners", lbpos=True)
+                X = np.asarray(estl.sample_in_gamut(200, seed=seed, engine=engine, l1=float(l1)), float)
+                events.append(dict(ev="l1", G=[list(c) for c in cl], n=200, l1S=int(round(l1 * S)), count=int(X.shape[0]), pts=np.rint(X * S).astype(int).tolist(), S=S, tol=TOL,
+                                   key=("estl", repr(A), str(engine)), meta=w))
+        except Exception as ex:
+            bad.append(("C13.no-error", dict(exc=type(ex).__name__, op="sample_in_gamut", lbpos=True, d=d), None, repr(ex)[:200]))
         # the same estimator after its bounds have been changed: samples must come from the NEW gamut
         try:
             newub = [1] * (n_src - 1) + [0]
